@@ -600,3 +600,14 @@ V("S3-optional-neutral-one", ["C07", "C09", "C11"], "factor_analysis", "fn_x_ih 
 V("S3-whitening-centre-not-stored", ["C14"], "whitening", "        self.input_subtract = mu\n", "        pass\n", "Whitening.fit never stores the training mean")
 V("S3-single-model-not-expanded", ["C08", "C11"], "linear_scoring", "        models_means = models_means[None, :, :]\n", "        pass\n", "a single (C, D) model is not expanded to one row")
 V("S3-single-model-expand-dims", ["C08"], "linear_scoring", "        models_means = models_means[None, :, :]\n", "        models_means = np.expand_dims(models_means, 0)\n", "expansion spelled with np.expand_dims", kind="benign")
+
+# ----------------------------------------------------------------------------- survivors of the third generic sweep (seed 3)
+V("S4-kmeans-mstep-subtract", ["C06", "C04"], "kmeans", "zeroeth_order_statistics += zeroeth_", "zeroeth_order_statistics -= zeroeth_", "per-block counts subtracted in the k-means M-step")
+V("S4-kmeans-mstep-offset", ["C06", "C04"], "kmeans", "average_min_distance = (0, 0, 0)", "average_min_distance = (0, 0, 1)", "criterion accumulator starts from one")
+V("S4-fa-residual-quotient", ["C07", "C09"], "factor_analysis", "self._D * latent_z_i", "self._D / latent_z_i", "D / z in the residual of the channel factors", count="all")
+V("S4-fa-accD-quotient", ["C09"], "factor_analysis", "(id_plus_d_prod + latent_z[y_i] * latent_z[y_i]) * tmp_CD", "(id_plus_d_prod + latent_z[y_i] * latent_z[y_i]) / tmp_CD", "second moment of z divided by the counts in A1 of the D phase")
+V("S4-stats-default-swapped", ["C02"], "gmm", "dtype=float) if sum_pxx is None else sum_pxx", "dtype=float) if sum_pxx is not None else sum_pxx", "GMMStats.init_fields replaces supplied second-order statistics by zeros and keeps None otherwise")
+V("S4-wccn-scale-two", ["C14"], "wccn", "scaled_Sw = 1 / n_classes * Sw", "scaled_Sw = 2 / n_classes * Sw", "within-class scatter scaled by 2 / K")
+V("S4-wccn-divide-two", ["C14"], "wccn", "self.input_divide = 1.0", "self.input_divide = 2.0", "fitted WCCN divides the input by two")
+V("S4-mapweights-coef", ["C05"], "gmm", "alpha * ml_weights + (1 - alpha) * machine.ubm.weights", "alpha * ml_weights + (2 - alpha) * machine.ubm.weights", "prior weights weighted by (2 - alpha)")
+V("S4-wccn-scale-division", ["C14"], "wccn", "scaled_Sw = 1 / n_classes * Sw", "scaled_Sw = Sw / n_classes", "scaling spelled as a division", kind="benign")
